@@ -235,3 +235,18 @@ package cli
 //@ cutsonly
 //@ before NewReconcilerForNewRecord assert arg0 == date
 //@ ensures true
+
+// ---------------------------------------------------------------------------------------------
+// print.go — `print --with-totals` (property C12): which value is shown in front of a line. The first line of a record
+// shows the record's total (the sum proved under C02, not marked as sub-value); the first line of each entry shows
+// that entry's duration (marked as sub-value); every other line (blank lines between records, continuation lines of
+// summaries) shows nothing. (Cuts and postconditions only.)
+//@ func printWithDurations$1
+//@ requires implies(nonnil(l.Record), typeis(l.Record, *klog.record))
+//@ noframe
+//@ cutsonly
+//@ before Total assert len(arg0) == 1 && arg0[0] == l.Record
+//@ ensures implies(isnil(l.Record), result == nil)
+//@ ensures implies(nonnil(l.Record) && old(isnil(previousRecord)), result != nil && !result.isSub && klog.dmin(result.d) == service.recTotal(l.Record))
+//@ ensures implies(nonnil(l.Record) && old(nonnil(previousRecord)) && l.EntryI != -1 && l.EntryI != old(previousEntry), result != nil && result.isSub && klog.dmin(result.d) == klog.edur(l.Record.(*klog.record).entries[l.EntryI]))
+//@ ensures implies(nonnil(l.Record) && old(nonnil(previousRecord)) && (l.EntryI == -1 || l.EntryI == old(previousEntry)), result == nil)
